@@ -35,13 +35,17 @@ def _alarm(sig, frm):
 
 
 def innermost(tb):
-    fn = "?"
+    """function and source text of the innermost miasmx / ply frame: the text (not the line number) keeps the signature stable when lines move,
+    and tells two raising statements of one function apart"""
+    import linecache
+    fn, txt = "?", ""
     while tb is not None:
         f = tb.tb_frame.f_code
         if "miasmx" in f.co_filename or "/ply/" in f.co_filename:
             fn = f.co_name
+            txt = " ".join(linecache.getline(f.co_filename, tb.tb_lineno).split())[:70]
         tb = tb.tb_next
-    return fn
+    return fn + " | " + txt
 
 
 def guarded(entry, f, *a):
@@ -115,7 +119,7 @@ def check_decoder(b, st_):
         rr = guarded("str:" + fmt.split()[0].split("_")[0], lambda: i.__str__(asm_format=fmt))
         if rr[0] == "exc":
             # the mnemonic is part of the signature where the failing site is a per-mnemonic table (mnemo_to_att, dict_to_ad)
-            site = rr[1] + ((i.m.name,) if rr[1][2] != "__str__" else ())
+            site = rr[1] + ((i.m.name,) if not rr[1][2].startswith("__str__ |") else ())
             out.append((site, "%s decodes (%s) but rendering as '%s' raised %s" % (b[:l].hex(), i.m.name, fmt, rr[2]), {"dis": b.hex()}))
             texts.append(None)
         elif rr[0] == "ok":
@@ -342,6 +346,28 @@ def w_asm_arith(run, st_, k, lines):
                 st_.fail(sig, det + "  [%s]" % line, {"asm": line, "att": 0})
 
 
+SKELETONS = ["", "eax", "%eax", "ax", "al", "1", "$1", "-1", "4", "(%eax)", "[eax]", "DWORD PTR [eax]", "BYTE PTR [eax]", "$1, (%eax)", "[eax], 1", "DWORD PTR [eax], 1", "(%eax), %ebx",
+             "ebx, [eax]", "%eax, %ebx", "eax, ebx", "eax, 1", "$1, %eax", "4(%eax)", "*%eax", "*(%eax)", "st(1)", "%st(1)", "mm0, mm1", "xmm0, xmm1", "%xmm1, %xmm0", "xmm0, [eax]", "(%eax), %xmm0",
+             "eax, ebx, 1", "$1, %ebx, %eax", "es:[eax]", "%es:(%eax)", "toto", "$toto", "eax,", ",", "[", "(", "1, 2, 3, 4"]
+
+
+def w_asm_skel(run, st_, k, names):
+    """every mnemonic of the vocabulary (and its AT&T b/w/l-suffixed forms) x a fixed list of operand skeletons, both front ends"""
+    for mn in names:
+        for sk in SKELETONS:
+            for att, m in ((False, mn), (True, mn), (True, mn + "l"), (True, mn + "b"), (True, mn + "w")):
+                line = (m + " " + sk).strip()
+                r = check_asm(att, line, st_)
+                st_.ev()
+                st_.nt(("k", att, line))
+                for sig, det, case in (r or []):
+                    sig = runner.norm_sig(sig)
+                    if sig in run.known:
+                        st_.known_hits[sig] += 1
+                    elif not any(f[0] == sig for f in st_.failures):
+                        st_.fail(sig, det, case)
+
+
 def w_asm_struct(run, st_, k, n):
     """structured lines (vlib/asmgen.py): well-formed operands with boundary immediates and displacements, both syntaxes"""
     from vlib import asmgen
@@ -446,6 +472,7 @@ def main(run):
     runner.pmap(run, w_asm_mut, [(run.pick(2500, 40000), rend)] * 16)
     runner.pmap(run, w_asm_struct, [run.pick(1500, 30000)] * 16)
     runner.pmap(run, w_asm_arith, list(runner.chunks(arith_lines(), 64)))
+    runner.pmap(run, w_asm_skel, list(runner.chunks(vocabulary(), 64)))
     fuzz_campaign(run)
 
 
